@@ -110,4 +110,62 @@ theorem lruRun_spec {κ ν} [BEq κ] [LawfulBEq κ] [DecidableEq κ] {f : κ →
     obtain ⟨h1, h2⟩ := lruCall_spec cap h k
     simp only [lruRun, List.map_cons, h1, lruRun_spec cap ks _ h2]
 
+/-! ### the prefix recorder -/
+
+theorem lookup_append {κ ν} [BEq κ] [LawfulBEq κ] [DecidableEq κ] (a b : List (κ × ν)) (k : κ) :
+    (a ++ b).lookup k = match a.lookup k with
+      | some v => some v
+      | none => b.lookup k := by
+  induction a with
+  | nil => rfl
+  | cons hd tl ih =>
+    obtain ⟨k0, v0⟩ := hd
+    simp only [List.cons_append, lookup_cons_if]
+    by_cases h : k = k0
+    · simp [h]
+    · simp [h, ih]
+
+/-- what the recorder answers for a prefix after a document's declarations have been
+registered: what it answered before, otherwise the *first* binding in the document -/
+theorem lookup_registerAll : ∀ (decls m : NsMap) (pfx : Option Str),
+    (registerAll m decls).lookup pfx = match m.lookup pfx with
+      | some u => some u
+      | none => decls.lookup pfx
+  | [], m, pfx => by
+    simp only [registerAll, List.foldl_nil]
+    cases m.lookup pfx <;> rfl
+  | (p0, u0) :: rest, m, pfx => by
+    have ih := lookup_registerAll rest (registerNs m p0 u0) pfx
+    simp only [registerAll, List.foldl_cons] at ih ⊢
+    rw [ih]
+    unfold registerNs
+    cases h0 : m.lookup p0 with
+    | some v =>
+      simp only
+      cases hm : m.lookup pfx with
+      | some u => rfl
+      | none =>
+        simp only [lookup_cons_if]
+        by_cases hp : pfx = p0
+        · subst hp; rw [h0] at hm; cases hm
+        · simp [hp]
+    | none =>
+      simp only [lookup_append, lookup_cons_if]
+      cases hm : m.lookup pfx with
+      | some u => rfl
+      | none =>
+        by_cases hp : pfx = p0
+        · simp [hp, List.lookup]
+        · simp [hp, List.lookup]
+
+/-- after a history of parses, the last of which was given no map by the caller, the
+instance holds the recorder of that last document alone -/
+theorem recRun_last {Doc R} (decls : Doc → NsMap) (bind : Doc → R) :
+    ∀ (h : List (Doc × Option NsMap)) (p : ParserInst) (d : Doc),
+      (recRun decls bind p (h ++ [(d, none)])).1 = ⟨registerAll [] (decls d)⟩
+  | [], p, d => rfl
+  | (d0, arg) :: rest, p, d => by
+    simp only [List.cons_append, recRun]
+    exact recRun_last decls bind rest _ d
+
 end Xs.Ctx
